@@ -552,6 +552,8 @@ func (e *Exec) instr(fr *Frame, st *State, in ssa.Instruction) {
 		case fkScalar:
 			fr.regs[x] = Val{T: "0", Typ: x.Type(), NonNil: true, Loc: &Loc{Kind: LField, Base: base.T, Map: e.fieldMap(stT, x.Field), Typ: ft}}
 		case fkStruct:
+			// taking the address of a guarded by-value struct counts as an access to it
+			e.guardField(fr, st, e.fieldMapName(stT, x.Field), base.T, x.Pos(), false)
 			fr.regs[x] = Val{T: app(e.embFun(stT, x.Field), base.T), Typ: x.Type(), NonNil: true}
 		case fkArray:
 			r := app(e.embFun(stT, x.Field), base.T)
